@@ -345,6 +345,12 @@ def comp_cases(ds, c0):
     out.append(('nested comprehension targets j,k', ds.Select(lambda e: [[k.pt + j.pt for k in j.trks] for j in e.jets]), lambda e: [[k.pt + j.pt for k in j.trks] for j in e.jets]))
     out.append(('capture next to comprehension', ds.Select(lambda e: ([j.pt for j in e.jets], j, k)), lambda e: ([j.pt for j in e.jets], j, k)))
     out.append(('lambda param j inside comprehension over t', ds.Select(lambda e: [t.trks.Select(lambda j: j.pt + k) for t in e.jets]), lambda e: [t.trks.Select(lambda j: j.pt + k) for t in e.jets]))
+    # set / dictionary comprehensions (not lowered, they stay what they are) whose target unpacks a tuple / list: every unpacked name is a loop variable
+    out.append(('dict comprehension, tuple target j, k', ds.Select(lambda e: {j: k * 2 for j, k in e.pairs}), lambda e: {j: k * 2 for j, k in e.pairs}))
+    out.append(('set comprehension, list target [j, k] with if', ds.Select(lambda e: {j + k for [j, k] in e.pairs if k > 2}), lambda e: {j + k for [j, k] in e.pairs if k > 2}))
+    out.append(('dict comprehension, nested tuple target j, (k, t)', ds.Select(lambda e: {j: (k, t) for j, (k, t) in e.triples}), lambda e: {j: (k, t) for j, (k, t) in e.triples}))
+    out.append(('set comprehension, starred target j, *k', ds.Select(lambda e: {j + k[0] for j, *k in e.pairs}), lambda e: {j + k[0] for j, *k in e.pairs}))
+    out.append(('dict comprehension, tuple target, capture c0 beside it', ds.Select(lambda e: ({j: k + c0 for j, k in e.pairs}, t)), lambda e: ({j: k + c0 for j, k in e.pairs}, t)))
     # the FIRST iterable is evaluated outside the comprehension: there the name is the captured variable (decided on the text)
     out.append(('first iterable is the captured variable', ds.Select(lambda e: [t + e.x for t in t]), "lambda e: 'glob'.Select(lambda t: t + e.x)"))
     out.append(('first iterable uses the captured variable', ds.Select(lambda e: [k.pt for k in e.pick(k)]), "lambda e: e.pick(7).Select(lambda k: k.pt)"))
@@ -363,7 +369,7 @@ def comprehension_scope(ctx):
 
     m = modgen.load(COMP_SRC, "c04comp")
     ds = m.DS()
-    data = CObj(jets=Seq([CObj(pt=10, trks=Seq([CObj(pt=1), CObj(pt=2)])), CObj(pt=20, trks=Seq([CObj(pt=3)]))]))
+    data = CObj(jets=Seq([CObj(pt=10, trks=Seq([CObj(pt=1), CObj(pt=2)])), CObj(pt=20, trks=Seq([CObj(pt=3)]))]), pairs=[(1, 2), (3, 4)], triples=[(1, (2, 3)), (4, (5, 6))])
     try:
         cases = m.comp_cases(ds, 3)
     except Exception as e:
